@@ -892,6 +892,40 @@ Section obs.
       rewrite (bool_decide_eq_false_2 (h < 0)) by lia. done.
     - done.
   Qed.
+
+  (** ** Transaction details *)
+
+  Definition cred_sel (C : list (N * bool)) (i : N) : option (N * bool) :=
+    (λ c, (i, c)) <$> ((list_to_map C : gmap N bool) !! i).
+
+  Lemma cred_sel_Some C i y : cred_sel C i = Some y → y.1 = i ∧ (i, y.2) ∈ C.
+  Proof.
+    unfold cred_sel. destruct (_ !! i) as [c|] eqn:Hc; simpl; [|done].
+    intros [= <-]. split; [done|]. by apply elem_of_list_to_map_2.
+  Qed.
+
+  Lemma sorted_creds t x :
+    U !! t = Some x →
+    merge_sort N_le_dec_rel (t_creds x) = omap (cred_sel (t_creds x)) (indices (t_outs x)).
+  Proof.
+    intros Hx. pose proof (wf_universe_lookup _ _ _ Hwf Hx) as Hwx.
+    pose proof (wt_creds_nodup _ _ Hwx) as Hnd.
+    apply sorted_perm_unique.
+    - apply StronglySorted_merge_sort; apply _.
+    - apply sorted_omap_sel; [|apply sorted_indices_from].
+      intros i y Hy. by apply cred_sel_Some in Hy as [? _].
+    - rewrite merge_sort_Permutation. apply NoDup_Permutation.
+      + eapply NoDup_fmap_1. rewrite <-map_fmap. exact Hnd.
+      + apply NoDup_omap; [apply NoDup_indices|].
+        intros i1 i2 y _ _ H1 H2. apply cred_sel_Some in H1 as [H1 _], H2 as [H2 _]. congruence.
+      + intros [i c]. rewrite elem_of_list_omap. split.
+        * intros Hin. exists i. split.
+          { apply elem_of_indices. exact (wt_creds_range _ _ Hwx _ Hin). }
+          unfold cred_sel. rewrite (elem_of_list_to_map_1 (t_creds x) i c); [done| |done].
+          by rewrite <-map_fmap.
+        * intros (j & _ & Hsel). apply cred_sel_Some in Hsel as [Hj Hin]. simpl in *. by subst j.
+    - rewrite map_fmap, merge_sort_Permutation, <-map_fmap. done.
+  Qed.
 End obs.
 
 Lemma utxos_correct : utxos_statement.
